@@ -32,3 +32,116 @@ pub fn error_code_roundtrip() -> Value {
 	}
 	json!({"probe":"error_code_roundtrip","disagrees":false,"inputs_tried": 906 + 7})
 }
+
+// ------------------------------------------------------------------------------------------
+// C18 / C03 / C05: histories through the REAL async client over an in-memory transport.
+use crate::mock;
+use jsonrpsee_core::client::async_client::ClientBuilder;
+use jsonrpsee_core::client::{ClientT, Subscription, SubscriptionClientT};
+use jsonrpsee_core::rpc_params;
+
+fn rt() -> tokio::runtime::Runtime {
+	tokio::runtime::Builder::new_multi_thread().worker_threads(2).enable_all().build().unwrap()
+}
+
+fn id_of(msg: &str) -> Value {
+	serde_json::from_str::<Value>(msg).unwrap()["id"].clone()
+}
+
+/// C18: after every subscription has ended and been acknowledged the tables are empty.
+pub fn client_tables_return_to_empty() -> Value {
+	rt().block_on(async {
+		let mut failures = Vec::new();
+		// H1: subscribe, accept, drop by the application, unsubscribe acknowledged
+		{
+			let (c, mut peer) = mock::client(ClientBuilder::default());
+			let fut = c.subscribe::<u64, _>("sub", rpc_params![], "unsub");
+			let h = tokio::spawn(async move {
+				let req = peer.next().await.unwrap();
+				peer.send(&json!({"jsonrpc":"2.0","id":id_of(&req),"result":"S1"}).to_string());
+				// the application drops the stream => client sends the unsubscribe
+				let unsub = peer.next().await;
+				if let Some(u) = &unsub {
+					peer.send(&json!({"jsonrpc":"2.0","id":id_of(u),"result":true}).to_string());
+				}
+				(peer, unsub)
+			});
+			let sub: Subscription<u64> = fut.await.unwrap();
+			drop(sub);
+			let (_peer, unsub) = h.await.unwrap();
+			mock::settle().await;
+			let sizes = c.verif_table_sizes();
+			if sizes != (0, 0, 0, 0) {
+				failures.push(json!({"history":"subscribe; accepted 'S1'; application drops stream; unsubscribe acknowledged",
+					"unsubscribe_sent": unsub, "table_sizes(requests,subscriptions,batches,handlers)": format!("{:?}", sizes)}));
+			}
+		}
+		// H2: subscribe, accept, server closes the subscription with an error notification
+		{
+			let (c, mut peer) = mock::client(ClientBuilder::default());
+			let fut = c.subscribe::<u64, _>("sub", rpc_params![], "unsub");
+			let h = tokio::spawn(async move {
+				let req = peer.next().await.unwrap();
+				peer.send(&json!({"jsonrpc":"2.0","id":id_of(&req),"result":"S1"}).to_string());
+				peer
+			});
+			let mut sub: Subscription<u64> = fut.await.unwrap();
+			let peer = h.await.unwrap();
+			peer.send(&json!({"jsonrpc":"2.0","method":"sub","params":{"subscription":"S1","error":"closed"}}).to_string());
+			let _ = tokio::time::timeout(std::time::Duration::from_secs(2), sub.next()).await;
+			mock::settle().await;
+			drop(sub);
+			mock::settle().await;
+			let sizes = c.verif_table_sizes();
+			if sizes != (0, 0, 0, 0) {
+				failures.push(json!({"history":"subscribe; accepted 'S1'; server sends close notification for 'S1'",
+					"table_sizes(requests,subscriptions,batches,handlers)": format!("{:?}", sizes)}));
+			}
+			drop(peer);
+		}
+		// H3: subscribe refused with an error response;  H4: accepted with something that is not a subscription id
+		for (name, reply) in [("refused with error response", json!({"error":{"code":-32000,"message":"no"}})), ("answered with a result that is not a subscription id", json!({"result":{"x":1}}))] {
+			let (c, mut peer) = mock::client(ClientBuilder::default());
+			let fut = c.subscribe::<u64, _>("sub", rpc_params![], "unsub");
+			let h = tokio::spawn(async move {
+				let req = peer.next().await.unwrap();
+				let mut r = reply.clone();
+				r["jsonrpc"] = json!("2.0");
+				r["id"] = id_of(&req);
+				peer.send(&r.to_string());
+				peer
+			});
+			let res = fut.await;
+			let _peer = h.await.unwrap();
+			mock::settle().await;
+			let sizes = c.verif_table_sizes();
+			if res.is_ok() || sizes != (0, 0, 0, 0) {
+				failures.push(json!({"history": format!("subscribe; {}", name), "subscribe_ok": res.is_ok(),
+					"table_sizes(requests,subscriptions,batches,handlers)": format!("{:?}", sizes)}));
+			}
+		}
+		// H5: plain call answered
+		{
+			let (c, mut peer) = mock::client(ClientBuilder::default());
+			let fut = c.request::<u64, _>("m", rpc_params![]);
+			let h = tokio::spawn(async move {
+				let req = peer.next().await.unwrap();
+				peer.send(&json!({"jsonrpc":"2.0","id":id_of(&req),"result":7}).to_string());
+				peer
+			});
+			let r = fut.await;
+			let _peer = h.await.unwrap();
+			mock::settle().await;
+			let sizes = c.verif_table_sizes();
+			if r.ok() != Some(7) || sizes != (0, 0, 0, 0) {
+				failures.push(json!({"history":"call; answered", "table_sizes": format!("{:?}", sizes)}));
+			}
+		}
+		if failures.is_empty() {
+			json!({"probe":"client_tables_return_to_empty","disagrees":false,"histories_tried":5})
+		} else {
+			json!({"probe":"client_tables_return_to_empty","disagrees":true,"input":failures,"expected":"all four tables empty: (0, 0, 0, 0)",
+				"observed": "residual entries (see input[*].table_sizes)"})
+		}
+	})
+}
